@@ -174,7 +174,20 @@ func c02Alphabet(c Cfg) []Op {
 }
 
 // runC02 executes ops; "xrestart" = cross-configuration restart. extra (in the replay) carries the pair.
+// makeRunC02 wraps the runner so that a violation carries everything its replay needs (writer, reader, reader set).
 func makeRunC02(writer, reader Cfg, readers []Cfg) func(cfg Cfg, keys []string, ops []Op, res *TaskResult) *Violation {
+	inner := makeRunC02Inner(writer, reader, readers)
+	return func(cfg Cfg, keys []string, ops []Op, res *TaskResult) *Violation {
+		v := inner(cfg, keys, ops, res)
+		if v != nil && len(v.Replay) == 0 {
+			v.Detail = fmt.Sprintf("cfg=%s reader=%s trace=[%s]\n%s", cfg, reader, traceString(ops), v.Detail)
+			v.Replay = mustJSON(seqReplay{Engine: "seq", Prop: "C02", Cfg: cfg, Keys: keys, Ops: ops, Trace: traceString(ops), Extra: c02Extra{Writer: writer, Reader: reader, Readers: readers}})
+		}
+		return v
+	}
+}
+
+func makeRunC02Inner(writer, reader Cfg, readers []Cfg) func(cfg Cfg, keys []string, ops []Op, res *TaskResult) *Violation {
 	return func(cfg Cfg, keys []string, ops []Op, res *TaskResult) *Violation {
 		beginExecution()
 		wc := writer
@@ -226,6 +239,7 @@ func makeRunC02(writer, reader Cfg, readers []Cfg) func(cfg Cfg, keys []string, 
 
 type c02Extra struct {
 	Writer, Reader Cfg
+	Readers        []Cfg
 }
 
 func c02Tasks(tier string) []Task {
@@ -521,7 +535,19 @@ func init() {
 				Extra c02Extra `json:"extra"`
 			}
 			json.Unmarshal(raw, &r)
-			seqReplayMain(raw, makeRunC02(r.Extra.Writer, r.Extra.Reader, c02Readers("quick")))
+			switch r.Engine {
+			case "fault":
+				seqReplayMain(raw, runC01Fault)
+				return
+			case "batch-staging-fault":
+				seqReplayMain(raw, runBatchStagingFault)
+				return
+			}
+			readers := r.Extra.Readers
+			if len(readers) == 0 {
+				readers = c02Readers("quick")
+			}
+			seqReplayMain(raw, makeRunC02(r.Extra.Writer, r.Extra.Reader, readers))
 		},
 	})
 }
